@@ -238,8 +238,38 @@ def value_literals(conds):
     return res
 
 
+def norm_term(t):
+    """one spelling for equal values (applied bottom-up): `c.size() > 0` / `c.size() != 0` is `!c.empty()`, `c.size() == 0` is `c.empty()`;
+    `std::make_pair(a, b)`, `std::pair<..>(a, b)`, `std::pair<..>{a, b}` and a braced `{a, b}` turned into a pair are `(pair a b)`."""
+    if not isinstance(t, tuple) or not t:
+        return t
+    def size_of(x):
+        if isinstance(x, tuple) and len(x) == 3 and x[0] == 'mcall' and isinstance(x[1], str) and x[1].endswith('::size'):
+            return ('mcall', x[1][:-len('size')] + 'empty', x[2])
+        return None
+    if len(t) == 3 and t[0] in ('<', '==', '!='):
+        for a, b, side in ((t[1], t[2], 0), (t[2], t[1], 1)):
+            e = size_of(b)
+            if a == ('num', 0) and e is not None:
+                if t[0] == '==':
+                    return e
+                if t[0] == '!=' or (t[0] == '<' and side == 0):
+                    return ('!', e)
+    if t[0] == 'call' and len(t) == 4 and t[1] == 'std::make_pair':
+        return ('pair', t[2], t[3])
+    if t[0] == 'new' and isinstance(t[1], str) and t[1].startswith('std::pair<'):
+        if len(t) == 4:
+            return ('pair', t[2], t[3])
+        if len(t) == 3 and isinstance(t[2], tuple) and t[2] and t[2][0] == 'list' and len(t[2]) == 3:
+            return ('pair', t[2][1], t[2][2])
+        if len(t) == 3 and isinstance(t[2], tuple) and t[2] and t[2][0] == 'pair':
+            return t[2]
+    return t
+
+
 def norm_literal(t, pol):
     """one spelling per atomic decision: no leading negation, `!=` as a failed `==`, `<=` as a failed `>`."""
+    t = norm_term(t)
     while isinstance(t, tuple) and len(t) == 2 and t[0] == '!':
         t, pol = t[1], not pol
     if isinstance(t, tuple) and len(t) == 3 and t[0] == '!=':
